@@ -351,6 +351,26 @@ def run_lex_stream(ctx):
     lex_compare(ctx, 'lex-marked-names', marked, segment_spec=True, spec_op='spec:segmentq')
     ctx.streams.append({'stream': 'lex-marked-names', 'cases': len(marked)})
     run_lex_pairs(ctx, marked, n // 10)
+    # 注 starts a comment only as 注： / 注<digits>：; any other text that begins with 注 is an ordinary name — 注1, 注12甲, 注册 —
+    # one identifier token covering all of it (the look-ahead for the comment form must leave nothing consumed)
+    note = []
+    tails = [[], [0x7532], [0x53F7], [0x61, 0x62], [0x518C], [0x5F55, 0x8868]]
+    for digits in ([], [0x31], [0x37], [0x31, 0x32], [0x30], [0x39, 0x39, 0x39], [0x32, 0x30, 0x32, 0x34]):
+        for tail in tails:
+            if not digits and not tail:
+                continue
+            note.append([0x6CE8] + digits + tail)
+    go_note = run_go_retry(ctx, ['lex ' + cps(t) for t in note])
+    model_note = ctx.run_lean(['lex ' + cps(t) for t in note])
+    for t, g, m in zip(note, go_note, model_note):
+        ctx.evaluations += 1
+        want = 'ok 5:0:%d:%s 0:%d:%d:-' % (len(t), cps(t), len(t), len(t))
+        if g != m:
+            ctx.disagreement('lex-note-names', 'lex ' + cps(t), g, m)
+        if not g.startswith(want + ' |'):
+            ctx.violation('lex-note-names', 'lex ' + cps(t), g, want + ' | …   (one name: no ： follows the digits)')
+        ctx.nontriv('lex ' + cps(t))
+    ctx.streams.append({'stream': 'lex-note-names', 'cases': len(note)})
     # random over the whole alphabet, and the structured kinds
     plan = [('random', n * 5 // 10), ('segment', n // 10), ('comments', n // 10), ('strings', n * 15 // 100),
             ('indent', n * 15 // 100)]
